@@ -63,7 +63,7 @@ func redirectOracle(c *core.Ctx, e *scen.Engine, s *scen.Sent, n *world.Node, r 
 		return // other data: C01/C03
 	}
 	if orig.Port != p.Port {
-		c.Violate(fmt.Sprintf("C13/%s-accepted/edited-port", kind),
+		c.Violate(fmt.Sprintf("C13/%s-accepted/edited-port@%s", kind, roleOf(orig, n.Name)),
 			"%s (%s of the packet) accepted %s of committed packet %s with port %q although the sender chose %q", n.Name, roleOf(orig, n.Name), kind, model.KeyOf(p), p.Port, orig.Port)
 	}
 	if orig.RelayChain != p.RelayChain {
@@ -73,7 +73,7 @@ func redirectOracle(c *core.Ctx, e *scen.Engine, s *scen.Sent, n *world.Node, r 
 		} else if p.RelayChain == "" {
 			what = "relay-removed"
 		}
-		c.Violate(fmt.Sprintf("C13/%s-accepted/%s", kind, what),
+		c.Violate(fmt.Sprintf("C13/%s-accepted/%s@%s", kind, what, roleOf(orig, n.Name)),
 			"%s (%s of the packet) accepted %s of committed packet %s with relay chain %q although the sender chose %q", n.Name, roleOf(orig, n.Name), kind, model.KeyOf(p), p.RelayChain, orig.RelayChain)
 	}
 }
@@ -116,16 +116,8 @@ func runC13(c *core.Ctx) {
 				continue
 			}
 			// the edited message may be sent to the original next hop or elsewhere
-			if ch.Bool(1, 3) {
-				p, _, _, _ := scen.SentPacket(m)
-				cands := []string{p.DestinationChain, p.SourceChain}
-				if p.RelayChain != "" {
-					cands = append(cands, p.RelayChain)
-				}
-				t := cands[ch.Int(len(cands))]
-				if _, ok := w.ByName[t]; ok {
-					m.Target = t
-				}
+			if ch.Bool(1, 2) { // any chain of the world: every role (source, relay, destination, bystander)
+				m.Target = w.Nodes[ch.Int(len(w.Nodes))].Name
 			}
 			if ch.Bool(1, 4) {
 				if m2 := e.Mutate(m, scen.MutSigner); m2 != nil {
